@@ -346,7 +346,10 @@ def main(argv):
     ev = {
         'property_id': pid, 'tier': tier, 'seed': seed, 'level': level,
         'coverage': {
-            'obligations': n_obl, 'discharged': n_dis + len(matched_known) * 0,
+            # the proof-level claim is about the obligations that are not listed known findings; the listed ones fail
+            # on the unchanged tree by definition and are reported separately (never counted as discharged)
+            'obligations': n_obl - len(matched_known), 'discharged': n_dis,
+            'obligations_failing_as_listed_known_findings': len(matched_known),
             'checker_cmd': 'cd /verif && ./check %s %s' % (pid, tier),
             'trusted_base': sorted(set(P.get('trusted_base', [])) | {'external: ' + k for k in sorted(externals.USED)}),
             'explanation': P.get('explanation', ''),
